@@ -24,11 +24,19 @@ checks = {
    text="all descriptor lists (1-2 descriptors of 1-2 tokens, all spellings) x all event names of 1-3 tokens over an alphabet with shared prefixes, multi-byte characters, empty tokens and case variants, executed on real sessions and compared with a token-prefix oracle",
    note="alphabet-bounded; matching observed through the selected-transition trace of a parallel probe document",
    tech="bounded-exhaustive enumeration of (descriptor list, event name) pairs on the real interpreter against a reference matcher"),
+ "C10": dict(engine="e2", cat="model_checking",
+   text="every expression tree up to the operator bound over all 13 binary operators and a typed operand menu, each in three renderings (minimal parentheses spaced / tight, redundant parentheses and whitespace), evaluated fresh and twice through the compilation cache on the real engine; renderings and cache paths must agree and the value must equal the reference evaluator's wherever the language documentation defines it",
+   note="reference semantics harness/src/refexpr.rs (precedence table of parser.rs taken as the documented precedence, README operator semantics); operand combinations the documentation does not define are not judged; one data store content",
+   tech="bounded-exhaustive enumeration of expression trees on the real engine against a reference evaluator plus metamorphic equalities"),
+ "C11": dict(engine="e2", cat="model_checking",
+   text="every string up to the length bound over a 24-character alphabet, every token sequence up to the bound over a 48-token alphabet (identifiers bound to all value types incl. aliased and nested values), a nesting-depth ladder and numeric boundary operands, each evaluated on the real engine on a default-stack thread; returns value or error, no panic, no abort, no hang, store unlocked and unpoisoned afterwards",
+   note="hang detection by wall-clock watchdog; process isolation detects aborts; one known finding (stack overflow at nesting depth 4096 of array literals)",
+   tech="bounded-exhaustive enumeration of inputs (all strings / token sequences up to a length) on the real engine with a totality oracle"),
 }
 na_reason = {}
 m = {
  "version": 1,
- "setup_cmd": "cd /verif && mkdir -p scratch evidence replays && cd harness && CARGO_NET_OFFLINE=true cargo build --release --offline --bin e1",
+ "setup_cmd": "cd /verif && ./check --setup",
  "hooks": {
    "guard": "rufsm_verif",
    "enable": "RUSTFLAGS=\"--cfg rufsm_verif -A unexpected_cfgs\" with CARGO_TARGET_DIR=/verif/target-hooks (checks of engine e4/e5 only)",
@@ -37,7 +45,9 @@ m = {
    "add_only": True},
  "engines": [
    {"name": "e1", "path": "harness/src/bin/e1.rs", "serves_properties": [p for p in checks if checks[p]['engine']=='e1'],
-    "kind_free_text": "explicit-state search over real rFSM sessions (one session, harness-paced at the idle point), reference SCXML interpreter as oracle"}],
+    "kind_free_text": "explicit-state search over real rFSM sessions (one session, harness-paced at the idle point), reference SCXML interpreter as oracle"},
+   {"name": "e2", "path": "harness/src/bin/e2.rs", "serves_properties": [p for p in checks if checks[p]['engine']=='e2'],
+    "kind_free_text": "bounded-exhaustive enumeration of characters / tokens / expression trees against the real expression engine, process-isolated workers with crash and hang recovery"}],
  "checks": [], "not_applicable": [], "notes": "see DESIGN.md; known findings in known_findings.json"}
 for p in props:
     if p in checks:
